@@ -138,6 +138,17 @@ def run_histories(case):
                                   {"msg": str(exc)[:300], "history": history[:pos + 1]})
                     broken = True
                     break
+                # invariant at the hook: no optimisation frame is left on the z3 solver when a call returns
+                if s._solver is not None:
+                    sid = id(s._solver)
+                    depth = sum(1 for e in ins.TRACE if e.get("solver") == sid and e["op"] == "push") - \
+                        sum(1 for e in ins.TRACE if e.get("solver") == sid and e["op"] == "pop")
+                    acc.count(acc.clauses, f"C13.push_depth_zero_after_call:{'T' if depth == 0 else 'F'}")
+                    if depth != 0:
+                        acc.violation("C13.frames_left_on_solver", "state-leak", feats,
+                                      {"history": history[:pos + 1], "depth": depth})
+                        broken = True
+                        break
                 # model update + judgement
                 if op in ("I", "X"):
                     if op == "I" and m.initialized:
